@@ -44,10 +44,17 @@ void resolve(cocls::promise<vs::Counted> &p, int rk) {
     switch (rk) { case 0: p(VAL); break; case 1: p(vs::make_err(9)); break; default: p(cocls::drop); break; }
     dsim::cell_set(RESOLVED, 1);
 }
+// by-reference producer (ReturnsFuture lets a shared_future<T> be built from a function returning future<T&>): the result is the
+// resolver's own object, which the shared state must neither copy nor destroy
+vs::Counted *g_ext = nullptr;
+void resolve_ref(cocls::promise<vs::Counted &> &p, int rk) {
+    switch (rk) { case 0: p(*g_ext); break; case 1: p(vs::make_err(9)); break; default: p(cocls::drop); break; }
+    dsim::cell_set(RESOLVED, 1);
+}
 }
 
 void dsim_scenario() {
-    int ctor = dsim::choose(6);       // 5: default-constructed, init_if_needed(), then sf << fn ("same as result_of")
+    int ctor = dsim::choose(8);       // 5: default-constructed, init_if_needed(), then sf << fn ("same as result_of")
     //       // ... 4: default-constructed, init_if_needed() called explicitly (public), then get_promise()       // 0 promise-taking fn, 1 future-returning fn (pending), 2 future-returning fn (already resolved), 3 default + get_promise()
     int rk = dsim::choose(3);
     int nu = 1 + dsim::choose(3);
@@ -56,10 +63,14 @@ void dsim_scenario() {
     bool handoff_in_ctor = dsim::flip();      // the init function itself passes the promise to the resolver thread: resolution races with the constructor
     dsim::plan_note("ctor=%d resolver=%d users=", ctor, rk); for (int i = 0; i < nu; i++) dsim::plan_note("%d", uk[i]);
     dsim::plan_note(" t0_drops_early=%d handoff_in_ctor=%d", (int)t0_drops_early, (int)handoff_in_ctor);
+    bool by_ref = ctor >= 6;          // 6: constructed from a function returning future<Counted&>, 7: the same through operator<<
+    std::unique_ptr<vs::Counted> ext; if (by_ref) { ext = std::make_unique<vs::Counted>(VAL); g_ext = ext.get(); }
     {
         cocls::promise<vs::Counted> prom;
+        cocls::promise<vs::Counted &> prom_ref;
         std::unique_ptr<SF> sf;
         std::thread res;
+        auto hand_over_ref = [&](cocls::promise<vs::Counted &> p) { if (handoff_in_ctor) res = std::thread([q = std::move(p), rk]() mutable { resolve_ref(q, rk); }); else prom_ref = std::move(p); };
         auto hand_over = [&](cocls::promise<vs::Counted> p) { if (handoff_in_ctor) res = std::thread([q = std::move(p), rk]() mutable { resolve(q, rk); }); else prom = std::move(p); };
         switch (ctor) {
         case 0: sf = std::make_unique<SF>([&](cocls::promise<vs::Counted> p) { hand_over(std::move(p)); }); break;
@@ -73,9 +84,13 @@ void dsim_scenario() {
         case 5: sf = std::make_unique<SF>(); sf->init_if_needed();
                 *sf << [&]() -> cocls::future<vs::Counted> { return [&](cocls::promise<vs::Counted> p) { hand_over(std::move(p)); }; };
                 break;
+        case 6: sf = std::make_unique<SF>([&]() -> cocls::future<vs::Counted &> { return [&](cocls::promise<vs::Counted &> p) { hand_over_ref(std::move(p)); }; }); break;
+        case 7: sf = std::make_unique<SF>(); sf->init_if_needed();
+                *sf << [&]() -> cocls::future<vs::Counted &> { return [&](cocls::promise<vs::Counted &> p) { hand_over_ref(std::move(p)); }; };
+                break;
         default: sf = std::make_unique<SF>(); sf->init_if_needed(); { SF early_copy = *sf; (void)early_copy; } prom = sf->get_promise(); break;
         }
-        if (ctor != 2 && !prom && !res.joinable()) dsim::fail("C17.no_promise", "construction mode %d produced no usable promise", ctor);
+        if (ctor != 2 && !prom && !prom_ref && !res.joinable()) dsim::fail("C17.no_promise", "construction mode %d produced no usable promise", ctor);
         std::vector<std::thread> th;
         for (int i = 0; i < nu; i++) {
             th.emplace_back([copy = *sf, i, k = uk[i], rk]() mutable {
@@ -94,6 +109,7 @@ void dsim_scenario() {
                 }
             });
         }
+        if (by_ref && !res.joinable()) res = std::thread([p = std::move(prom_ref), rk]() mutable { resolve_ref(p, rk); });
         if (ctor != 2 && !res.joinable()) res = std::thread([p = std::move(prom), rk]() mutable { resolve(p, rk); });
         if (t0_drops_early) sf.reset();      // possibly every handle is gone while the state is still pending
         if (res.joinable()) res.join();
@@ -103,9 +119,11 @@ void dsim_scenario() {
             int kind; long val = 0;
             try { val = sf->value().value(); kind = 1; } catch (const vs::TestError &e) { kind = 2; val = e.code; } catch (const cocls::await_canceled_exception &) { kind = 3; }
             observed(8, kind, val, rk);
+            if (by_ref && rk == 0 && &sf->value() != ext.get()) dsim::fail("C17.result_differs", "a by-reference result is not the resolver's object");
             if (rk == 0 && vs::Counted::constructed() - vs::Counted::destroyed() != 1) dsim::fail("C17.instances", "%ld live instances of the stored value while a handle exists", vs::Counted::constructed() - vs::Counted::destroyed());
-        } else if (vs::Counted::constructed() != vs::Counted::destroyed()) dsim::fail("C17.state_not_freed", "every handle is gone and the future is resolved but the stored value still lives (%ld constructed, %ld destroyed)", vs::Counted::constructed(), vs::Counted::destroyed());
+        } else if (vs::Counted::constructed() - vs::Counted::destroyed() != (by_ref ? 1 : 0)) dsim::fail("C17.state_not_freed", "every handle is gone and the future is resolved but the stored value still lives (%ld constructed, %ld destroyed)", vs::Counted::constructed(), vs::Counted::destroyed());
         for (int i = 0; i < nu; i++) if (uk[i] != 3 && dsim::cell_get(OBS + i) != 1) dsim::fail("C17.awaiter_lost", "awaiter %d observed the result %ld times", i, dsim::cell_get(OBS + i));
     }
+    if (by_ref) { ext->check("C17: the resolver's object after the shared state is gone"); if (ext->value() != VAL) dsim::fail("C17.result_differs", "the resolver's object was modified"); ext.reset(); g_ext = nullptr; }
     vs::Counted::expect_balanced("C17.instances");
 }
